@@ -27,7 +27,7 @@ def ensure_model():
         shutil.rmtree(old, ignore_errors=True)
     os.makedirs(d, exist_ok=True)
     # the Spec .vo files must be current
-    rc, out, _ = vlib.coq_make(["theories/Spec/Proto.vo", "theories/Impl/Api.vo", "theories/Impl/BufProto.vo", "theories/Impl/SerProto.vo", "theories/Spec/Proto2.vo"], timeout=1200)
+    rc, out, _ = vlib.coq_make(["theories/Spec/Proto.vo", "theories/Impl/Api.vo", "theories/Impl/BufProto.vo", "theories/Impl/SerProto.vo", "theories/Impl/TraceProto.vo", "theories/Spec/Proto2.vo"], timeout=1200)
     if rc != 0:
         raise RuntimeError("cannot build Spec/Proto.vo:\n" + out[-3000:])
     for f in ("Extract.v", "driver.ml", "icu_stub.c"):
